@@ -1,7 +1,7 @@
 (* Facts about the echo writer that the .p8 round trip (C03) needs: the yielded lines are never empty, the
    written text is a fixed point of lex + echo, and stays one when a final line feed is supplied. *)
-From PV Require Import Base.Prelude Generated.T_lexer Model.Lexer Model.EchoWriter Proofs.LexerProofs Proofs.LexerInv
-  Proofs.LexerSpec Proofs.LexerAgree Proofs.LexerChunk Proofs.EchoProofs Proofs.LexerRelex Proofs.LexerAppendLf.
+From PV Require Import Base.Prelude Generated.T_lexer Model.Lexer Model.EchoWriter Spec.LuaLex Instances.HoldsC07 Proofs.LexerProofs Proofs.LexerInv
+  Proofs.LexerSpec Proofs.LexerAgree Proofs.LexerMain Proofs.LexerView Proofs.LexerChunk Proofs.EchoProofs Proofs.LexerRelex Proofs.LexerAppendLf.
 From Coq Require Import ZifyBool.
 
 (* ---------- (3) no token has an empty code, no yielded line is empty *)
@@ -122,3 +122,188 @@ Proof.
   rewrite E''. exists (echo ts''). split; [reflexivity|]. rewrite echo_concat, Hc'', Hcodes. reflexivity.
 Qed.
 Print Assumptions echo_idempotent_lf.
+
+(* ---------- the yielded chunks end with a line feed (all but the last) *)
+(* the writer yields after every newline token, so a chunk (except the last) ends with the code of a newline
+   token: "\n", "\r\n" - or a lone "\r" when the source has a carriage return, outside strings and comments,
+   that is not followed by a line feed (matcher MNlCr); such sources are outside the reference dialect *)
+Definition nl_ends_lf (t : tok) : Prop := is_newline_tok t = true -> ends_lf (tok_code t).
+
+Lemma ends_lf_app a b : ends_lf b -> ends_lf (a ++ b).
+Proof. intros [x ->]. exists (a ++ x). rewrite app_assoc. reflexivity. Qed.
+
+Lemma echo_lines_end_lf ts : forall strs, Forall nl_ends_lf ts -> Forall ends_lf (removelast (echo_lines ts strs)).
+Proof.
+  induction ts as [|t r IH]; intros strs Ht; cbn [echo_lines].
+  - destruct strs; constructor.
+  - inversion Ht as [|? ? Hn Ht']; subst. destruct (is_newline_tok t) eqn:Nl; [|apply IH; exact Ht'].
+    specialize (IH [] Ht'). destruct (echo_lines r []) as [|y l] eqn:E; [constructor|].
+    change (removelast (join_rev (tok_code t :: strs) :: y :: l)) with (join_rev (tok_code t :: strs) :: removelast (y :: l)).
+    constructor; [|exact IH]. unfold join_rev. rewrite rev'_eq. cbn [rev]. rewrite concat_app. cbn [concat]. rewrite app_nil_r.
+    apply ends_lf_app. apply Hn. exact Nl.
+Qed.
+
+Theorem echo_chunks_end_lf_if ts : Forall nl_ends_lf ts -> Forall ends_lf (removelast (echo ts)).
+Proof. apply echo_lines_end_lf. Qed.
+
+(* the only newline tokens the lexer produces: "\n", "\r\n", "\r" *)
+Definition nl_code_ok (t : tok) : Prop :=
+  is_newline_tok t = true -> tok_code t = [10] \/ tok_code t = [13; 10] \/ tok_code t = [13].
+
+Lemma newline_rows_sweep :
+  forallb (fun mk => match snd mk with
+                     | KNewline => match fst mk with MNlCrLf | MNlLf | MNlCr => true | _ => false end
+                     | _ => true
+                     end) token_matchers = true.
+Proof. vm_compute. reflexivity. Qed.
+
+Lemma first_matcher_newline tbl : forallb (fun mk => match snd mk with
+                     | KNewline => match fst mk with MNlCrLf | MNlLf | MNlCr => true | _ => false end
+                     | _ => true
+                     end) tbl = true ->
+  forall s a b, first_matcher tbl s = Some (KNewline, a, b) -> a = [10] \/ a = [13; 10] \/ a = [13].
+Proof.
+  induction tbl as [|[m k] tbl IH]; intros HT s a b H; [discriminate|].
+  cbn [forallb fst snd] in HT. apply andb_true_iff in HT. destruct HT as [H1 H2]. cbn [first_matcher] in H.
+  destruct (run_matcher m s) as [[x y]|] eqn:R; [|apply (IH H2 s a b H)].
+  inversion H; subst. destruct m; try discriminate; cbn [run_matcher] in R; unfold scan_literal in R;
+    match type of R with match drop_prefix ?l s with _ => _ end = _ => destruct (drop_prefix l s) end;
+    inversion R; subst; auto.
+Qed.
+
+Lemma process_token_nl ms l c s ms' t piece rest :
+  process_token ms l c s = Ok (Some (ms', Some t, piece, rest)) -> nl_code_ok t.
+Proof.
+  intros H Hn. unfold is_newline_tok in Hn.
+  destruct ms as [|delim acc sl sc ext|acc sl sc|eqs acc sl sc ext]; cbn [process_token] in H.
+  - destruct (drop_prefix [45; 45; 91; 91] s); [discriminate|].
+    destruct (match_long_open s) as [[eqs r1]|]; [discriminate|].
+    destruct s as [|c0 r]; [discriminate|]. destruct ((c0 =? 39) || (c0 =? 34)); [discriminate|].
+    destruct (first_matcher token_matchers (c0 :: r)) as [[[k a] r']|] eqn:E; [|discriminate]. inversion H; subst.
+    cbn [t_kind] in Hn. destruct k; try discriminate. unfold tok_code. cbn [t_kind t_data].
+    apply (first_matcher_newline _ newline_rows_sweep _ _ _ E).
+  - destruct s as [|c0 r0]; [discriminate|].
+    destruct (scan_string (length (c0 :: r0)) delim (c0 :: r0) acc []) as [[acc' pc rest'|acc' pc]|e]; try discriminate.
+    inversion H; subst. discriminate.
+  - destruct (find_rbrackets s) as [[a rest']|]; [|destruct s; discriminate]. inversion H; subst. discriminate.
+  - destruct (find_long_close (93 :: eqs ++ [93]) s) as [[a rest']|]; [|destruct s; discriminate]. inversion H; subst. discriminate.
+Qed.
+
+Lemma process_line_nl fuel : forall st s st', Forall nl_code_ok (l_toks_rev st) -> process_line fuel st s = Ok st' ->
+  Forall nl_code_ok (l_toks_rev st').
+Proof.
+  induction fuel as [|f IH]; intros st s st' Hok H; [discriminate|]. rewrite process_line_S in H.
+  destruct (process_token (l_state st) (l_line st) (l_col st) s) as [[[[[ms ot] piece] rest]|]|e] eqn:E; [| |discriminate].
+  - destruct (is_nil piece).
+    + destruct (is_nil s); [|discriminate]. inversion H; subst. exact Hok.
+    + destruct (advance (l_line st, l_col st) piece) as [l' c']. apply IH in H; [exact H|]. cbn [l_toks_rev].
+      destruct ot as [t|]; [|exact Hok]. constructor; [apply (process_token_nl _ _ _ _ _ _ _ _ E) | exact Hok].
+  - destruct (is_nil s); [|discriminate]. inversion H; subst. exact Hok.
+Qed.
+
+Lemma model_lex_nl chunks ts : model_lex chunks = Ok ts -> Forall nl_code_ok ts.
+Proof.
+  unfold model_lex. destruct (process_chunks init_lexst chunks) as [st|e] eqn:E; [|discriminate].
+  assert (HF : Forall nl_code_ok (l_toks_rev st)).
+  { revert E. generalize init_lexst (Forall_nil nl_code_ok : Forall nl_code_ok (l_toks_rev init_lexst)).
+    induction chunks as [|c cs IH]; intros st0 H0 E; cbn [process_chunks] in E; [inversion E; subst; exact H0|].
+    destruct (process_line (S (length c)) st0 c) as [st1|e1] eqn:E1; [|discriminate].
+    apply (IH st1 (process_line_nl _ _ _ _ H0 E1) E). }
+  destruct (l_state st); try discriminate. intros H; inversion H; subst. rewrite rev'_eq. apply Forall_rev. exact HF.
+Qed.
+
+(* exact side condition: no newline token is a lone carriage return *)
+Definition no_lone_cr_newline (ts : list tok) : Prop :=
+  Forall (fun t => is_newline_tok t = true -> tok_code t <> [13]) ts.
+
+Theorem echo_chunks_end_lf ls ts : model_lex ls = Ok ts -> no_lone_cr_newline ts ->
+  Forall ends_lf (removelast (echo ts)).
+Proof.
+  intros H Hn. apply echo_chunks_end_lf_if. pose proof (model_lex_nl _ _ H) as Hk.
+  unfold no_lone_cr_newline in Hn. rewrite Forall_forall in *. intros t Ht Nl.
+  destruct (Hk t Ht Nl) as [E|[E|E]]; [rewrite E; exists []; reflexivity | rewrite E; exists [13]; reflexivity |].
+  exfalso. exact (Hn t Ht Nl E).
+Qed.
+Print Assumptions echo_chunks_end_lf.
+
+(* the side condition holds for every source of the reference dialect (whose line ends are LF and CR LF) *)
+Lemma spec_step_newline s t rest : spec_step s = Some (t, rest) -> s_kind t = SNewline -> s_raw t = [10] \/ s_raw t = [13; 10].
+Proof.
+  intros H K. destruct s as [|c r]; [discriminate|]. unfold spec_step in H.
+  assert (Sym : forall x y, spec_symbol x = Some (t, y) -> False).
+  { intros x y Hs. destruct (spec_symbol_inv _ _ _ Hs) as (z & _ & _ & -> & _). discriminate K. }
+  assert (Num : forall x y, spec_number x = Some (t, y) -> False).
+  { intros x y Hs. unfold spec_number in Hs. destruct (LuaLex.num_run (LuaLex.is_hex_prefix x) false x) as [run rs].
+    destruct (LuaLex.spec_numeral run) as [[n d]|]; [|discriminate]. inversion Hs; subst. discriminate K. }
+  assert (Lc : forall x y, LuaLex.line_comment x = Some (t, y) -> False).
+  { intros x y Hs. unfold LuaLex.line_comment in Hs. destruct (LuaLex.span _ x). inversion Hs; subst. discriminate K. }
+  destruct (LuaLex.is_blank c). { destruct (LuaLex.span LuaLex.is_blank (c :: r)). inversion H; subst. discriminate K. }
+  destruct (c =? 10). { inversion H; subst. left; reflexivity. }
+  destruct (c =? 13).
+  { destruct r as [|y r']; [discriminate|]. rewrite match10 in H. destruct (y =? 10); [|discriminate].
+    inversion H; subst. right; reflexivity. }
+  exfalso.
+  destruct (c =? 45).
+  { destruct r as [|y r2]; [eapply Sym; exact H|]. rewrite match45 in H.
+    destruct (y =? 45); [|eapply Sym; exact H].
+    destruct r2 as [|z r3]; [eapply Lc; exact H|]. rewrite match91 in H.
+    destruct (z =? 91); [|eapply Lc; exact H].
+    destruct (LuaLex.long_open r3 0) as [[lvl r4]|]; [|eapply Lc; exact H].
+    destruct (lvl =? 0); [|discriminate]. destruct (LuaLex.long_body 0 r4) as [[[b cl] rs]|]; [|discriminate].
+    inversion H; subst. discriminate K. }
+  destruct (c =? 47).
+  { destruct r as [|y r2]; [eapply Sym; exact H|]. rewrite match47 in H.
+    destruct (y =? 47); [eapply Lc; exact H | eapply Sym; exact H]. }
+  destruct (c =? 91).
+  { destruct (LuaLex.long_open r 0) as [[lvl r2]|].
+    - destruct (LuaLex.long_body (Z.to_nat lvl) r2) as [[[b cl] rs]|]; [|discriminate]. inversion H; subst. discriminate K.
+    - destruct r as [|y r2]; [eapply Sym; exact H|]. rewrite match61 in H.
+      destruct (y =? 61); [discriminate | eapply Sym; exact H]. }
+  destruct ((c =? 34) || (c =? 39)).
+  { destruct (LuaLex.unescape_until c r) as [[[v raw] rs]|]; [|discriminate]. inversion H; subst. discriminate K. }
+  destruct (LuaLex.is_digit c); [eapply Num; exact H|].
+  destruct (c =? 46).
+  { destruct r as [|d r']; [eapply Sym; exact H|].
+    destruct (LuaLex.is_digit d); [eapply Num; exact H | eapply Sym; exact H]. }
+  destruct (LuaLex.is_name_start c).
+  { destruct (LuaLex.span LuaLex.is_name_char (c :: r)) as [a b]. destruct (LuaLex.mem_bytes a LuaLex.spec_keywords); inversion H; subst; discriminate K. }
+  destruct (c =? 58).
+  { destruct r as [|y r2]; [eapply Sym; exact H|]. rewrite match58 in H.
+    destruct (y =? 58); [|eapply Sym; exact H].
+    destruct (LuaLex.span LuaLex.is_name_char r2) as [a b]. destruct a as [|n0 a']; [discriminate|].
+    destruct (LuaLex.strip_prefix [58; 58] b); [|discriminate]. destruct (LuaLex.is_name_start n0); [|discriminate].
+    inversion H; subst. discriminate K. }
+  destruct (c =? 63). { inversion H; subst. discriminate K. }
+  eapply Sym; exact H.
+Qed.
+
+Lemma spec_toks_newline l c s ts : spec_toks l c s ts ->
+  Forall (fun t => s_kind t = SNewline -> s_raw t = [10] \/ s_raw t = [13; 10]) ts.
+Proof.
+  induction 1 as [l c | l c s t rest l' c' ts Es Hne Ha Hts IH]; [constructor|]. constructor; [|exact IH].
+  pose proof (spec_step_newline s t rest Es) as K. unfold at_pos. cbn [s_kind s_raw]. exact K.
+Qed.
+
+Theorem dialect_no_lone_cr ls ts ss :
+  Forall ends_lf (removelast ls) -> Forall byte (concat ls) -> spec_lex (concat ls) = Some ss ->
+  model_lex ls = Ok ts -> no_lone_cr_newline ts.
+Proof.
+  intros HF HB Hs Hm. rewrite (model_lex_chunking ls HF) in Hm.
+  destruct (lex_agrees (concat ls) ss HB Hs) as (ts0 & Hm0 & Hag). rewrite Hm0 in Hm. inversion Hm; subst ts0.
+  assert (Hnl : Forall (fun t => s_kind t = SNewline -> s_raw t = [10] \/ s_raw t = [13; 10]) ss).
+  { unfold spec_lex in Hs. destruct (crlf_only (concat ls)); [|discriminate].
+    destruct (spec_lex_fuel_toks _ _ _ _ _ _ Hs) as (ts' & -> & Hts). cbn [rev app]. apply (spec_toks_newline 0 0 _ ts' Hts). }
+  unfold no_lone_cr_newline. clear -Hag Hnl. induction Hag as [|s t ss ts Hst _ IH]; [constructor|].
+  inversion Hnl as [|? ? N1 N2]; subst. constructor; [|apply IH; exact N2].
+  intros Nl. destruct (agree_fields s t Hst) as (Hk & _ & _ & Hf). unfold is_newline_tok in Nl. rewrite Hk in Nl.
+  destruct (s_kind s) eqn:K; try discriminate. unfold tok_code. rewrite Hk. cbn [kind_of]. rewrite Hf.
+  destruct (N1 eq_refl) as [E|E]; rewrite E; discriminate.
+Qed.
+Print Assumptions dialect_no_lone_cr.
+
+(* hence: for a source of the dialect the chunks yielded by the writer can be fed back as they are *)
+Theorem echo_chunks_end_lf_dialect ls ts ss :
+  Forall ends_lf (removelast ls) -> Forall byte (concat ls) -> spec_lex (concat ls) = Some ss ->
+  model_lex ls = Ok ts -> Forall ends_lf (removelast (echo ts)).
+Proof. intros HF HB Hs Hm. apply (echo_chunks_end_lf ls ts Hm). apply (dialect_no_lone_cr ls ts ss HF HB Hs Hm). Qed.
+Print Assumptions echo_chunks_end_lf_dialect.
